@@ -2,6 +2,7 @@ import RbV.Spec.QGram
 import RbV.Spec.KChain
 import RbV.Lemmas.QGram
 import RbV.Lemmas.KChain
+import RbV.Lemmas.QGramIter
 /-!
 # C19 — k-mer / q-gram indexing and sparse chaining are exact
 
@@ -52,6 +53,36 @@ theorem qgram_code_bound (alpha w : List Nat) (hw : ∀ c ∈ w, c ∈ alpha) :
   simpa using this
 
 example : code 2 [2, 1] = 9 ∧ code 2 [1, 2, 0] = 24 := by decide
+
+/-- the reference code list: one code per window of length `q`, left to right -/
+theorem fwdCodes_spec (alpha : List Nat) (q : Nat) (text : List Nat) :
+    (fwdCodes alpha q text).length = text.length + 1 - q ∧
+    ∀ i, i + q ≤ text.length → 0 < q →
+      (fwdCodes alpha q text)[i]? = some (code (bitsFor alpha.length) (((text.drop i).take q).map (rank alpha))) := by
+  constructor
+  · simp [fwdCodes, windows]
+  · intro i hi hq
+    simp only [fwdCodes, windows, List.getElem?_map, List.length_map]
+    rw [List.getElem?_range (by omega)]
+    simp [window, List.map_take, List.map_drop]
+
+/-- **mirror model of `QGrams`** (rolling `<<=`, `|=`, `&= mask` on 64-bit words, first `q−1` values consumed): for
+every alphabet, every `q ≥ 1` with `q·bits ≤ 64` and every text over the alphabet it yields exactly the reference
+codes -/
+theorem qgrams_model_refines (alpha : List Nat) (q : Nat) (text : List Nat) (hq : 0 < q)
+    (hqb : q * bitsFor alpha.length ≤ 64) (ht : ∀ c ∈ text, c ∈ alpha) :
+    qgramsModel alpha q text = fwdCodes alpha q text :=
+  qgramsModel_eq alpha q text hq hqb ht
+
+/-- **reverse iteration mirrors forward iteration**: the model of `RevQGrams` (`>>=`, `|= a << (q−1)·bits`, symbols
+taken from the back) yields the forward codes in reverse order -/
+theorem rev_qgrams_mirror (alpha : List Nat) (q : Nat) (text : List Nat) (hq : 0 < q)
+    (hqb : q * bitsFor alpha.length ≤ 64) (ht : ∀ c ∈ text, c ∈ alpha) :
+    revQgramsModel alpha q text = (qgramsModel alpha q text).reverse := by
+  rw [qgramsModel_eq alpha q text hq hqb ht, revQgramsModel_eq alpha q text hq ht]
+
+example : qgramsModel [65, 67, 71, 84, 97, 99, 103, 116] 2 [65, 67, 71, 84] = [1, 10, 19] ∧
+    revQgramsModel [65, 67, 71, 84, 97, 99, 103, 116] 2 [65, 67, 71, 84] = [19, 10, 1] := by decide
 
 /-! ## q-gram index: position lists -/
 
